@@ -610,7 +610,7 @@ def run_net(ctx, case, model=True):
             impl_sh.append({"err": rr[1]} if rr[0] == "err" else {"ok": sorted(int(x) for x in rr[1])})
             masks_sh.append([])
             continue
-        want, amb, amb_code = [], [], []
+        want, amb, amb_code, sure_code = [], [], [], []
         for i in ids:
             t, a = geom.shape_meets_ring(spec, rings[i], exported=True, band=BAND)
             if a:
@@ -618,8 +618,11 @@ def run_net(ctx, case, model=True):
             elif t:
                 want.append(i)
             if spec["k"] == "circ":
-                if geom.shape_meets_ring(spec, rings[i], exported=True, band=BAND, circ_scale=CODE_CIRC_SCALE)[1]:
+                tc, ac = geom.shape_meets_ring(spec, rings[i], exported=True, band=BAND, circ_scale=CODE_CIRC_SCALE)
+                if ac:
                     amb_code.append(i)
+                elif tc:
+                    sure_code.append(i)
             else:
                 if a:
                     amb_code.append(i)
@@ -640,6 +643,8 @@ def run_net(ctx, case, model=True):
         if got != want:
             miss, extra = sorted(set(want) - set(got)), sorted(set(got) - set(want))
             what = "misses" if miss else ("reports" if extra else "repeats")
+            if spec["k"] == "circ" and any(i in sure_code for i in miss):
+                what = "misses-within-half-radius"            # not explained by the known r/2 export
             _fail(ctx, f"C06/find_lanelet_by_shape/{what}/{spec['k']}",
                      f"shape {spec}: find_lanelet_by_shape = {got}, lanelets whose polygon meets the shape = {want} (route {route}, ops "
                      f"{[o['op'] for o in ops]})", dict(case, pts=[], shapes=[spec]))
@@ -652,7 +657,10 @@ def run_net(ctx, case, model=True):
             gotc = sorted(l.lanelet_id for l in rc[1].lanelets if l.lanelet_id not in amb)
             if gotc != want:
                 miss = sorted(set(want) - set(gotc))
-                _fail(ctx, f"C06/create_from_lanelet_network/{'misses' if miss else 'reports'}/{spec['k']}",
+                what = "misses" if miss else "reports"
+                if spec["k"] == "circ" and any(i in sure_code for i in miss):
+                    what = "misses-within-half-radius"
+                _fail(ctx, f"C06/create_from_lanelet_network/{what}/{spec['k']}",
                          f"shape {spec}: create_from_lanelet_network keeps {gotc}, lanelets whose polygon meets the shape = {want}",
                          dict(case, pts=[], shapes=[spec]))
 
@@ -737,7 +745,10 @@ def run_shape(ctx, case, model=True):
         if eamb:
             ctx.excluded += 1
         elif re_[1] != emember:
-            _fail(ctx, f"C06/shapely_object/{'misses' if emember else 'reports'}/{kke(p)}", f"exported geometry of {spec} "
+            what = "misses" if emember else "reports"
+            if emember and geom.has_circle(spec) and geom.point_in_exported(spec, p, BAND, circ_scale=CODE_CIRC_SCALE) == (True, False):
+                what = "misses-within-half-radius"
+            _fail(ctx, f"C06/shapely_object/{what}/{kke(p)}", f"exported geometry of {spec} "
                      f"{'contains' if re_[1] else 'does not contain'} {p}, the set the shape denotes {'does' if emember else 'does not'}", sub)
     if model:
         a = {"shape": wire_shape(spec), "pts": wire_pts(pts)}
@@ -853,7 +864,7 @@ def run_obst(ctx, case, model=True):
             if amb[(l.lanelet_id, k)]:
                 continue
             if (k in got) != truth[(l.lanelet_id, k)]:
-                _fail(ctx, "C06/get_obstacles/" + ("misses" if truth[(l.lanelet_id, k)] else "reports") + "/" + kko(l.lanelet_id, k),
+                _fail(ctx, "C06/get_obstacles/" + _what(truth, truthc, ambc, l.lanelet_id, k) + "/" + kko(l.lanelet_id, k),
                          f"lanelet {l.lanelet_id}.get_obstacles(t={t}) {'contains' if k in got else 'omits'} obstacle {k} with occupancy "
                          f"{specs[k]}; polygon meets the occupancy: {truth[(l.lanelet_id, k)]}", sub(l.lanelet_id, k))
         if len(got) != len(set(got)):
@@ -874,7 +885,7 @@ def run_obst(ctx, case, model=True):
                 for o in obs:
                     k = o["id"]
                     if not amb[(i, k)] and (k in got) != truth[(i, k)]:
-                        _fail(ctx, "C06/map_obstacles_to_lanelets/" + ("misses" if truth[(i, k)] else "reports") + "/" + kko(i, k),
+                        _fail(ctx, "C06/map_obstacles_to_lanelets/" + _what(truth, truthc, ambc, i, k) + "/" + kko(i, k),
                                  f"map_obstacles_to_lanelets: lanelet {i} -> {got}; obstacle {k} ({specs[k]}) meets the lanelet polygon: "
                                  f"{truth[(i, k)]}", sub(i, k))
             for i, got in mp.items():
@@ -897,7 +908,10 @@ def run_obst(ctx, case, model=True):
                     continue                                   # the union's answer hangs on an ambiguous pair
                 if (k in got) != sure_in:
                     kf = "group" if any(kko(i, k) == "group" for i in ids) else kind_key(specs[k])
-                    _fail(ctx, "C06/filter_obstacles_in_network/" + ("misses" if sure_in else "reports") + "/" + kf,
+                    what = "misses" if sure_in else "reports"
+                    if sure_in and any(truthc[(i, k)] and not ambc[(i, k)] for i in ids):
+                        what = "misses-within-half-radius"
+                    _fail(ctx, "C06/filter_obstacles_in_network/" + what + "/" + kf,
                              f"filter_obstacles_in_network {'keeps' if k in got else 'drops'} obstacle {k} ({specs[k]}); it meets a "
                              f"lanelet polygon: {sure_in}", dict(case, obs=[o]))
             if len(got) != len(set(got)):
@@ -915,6 +929,13 @@ def run_obst(ctx, case, model=True):
         if impl_filter is not None:
             ctx.compare(case, impl_filter, sorted(k for k in m["filter"] if k in keepc),
                         "filter_obstacles_in_network vs CR.Index.filterObstacles")
+
+
+def _what(truth, truthc, ambc, i, k):
+    """misses / reports; a miss that the known r/2 export of circles does not explain gets its own class."""
+    if not truth[(i, k)]:
+        return "reports"
+    return "misses-within-half-radius" if truthc[(i, k)] and not ambc[(i, k)] else "misses"
 
 
 def run_case(ctx, case, model=True):
